@@ -6,9 +6,9 @@ import XvcRepo.Props.C17
 -/
 namespace Repo
 
-theorem carryOne_recs (s : St) (p : Path) (a : Addr) (m : Method) (f : Bool) :
-    (s.carryOne p a m f).1.recs = s.recs := by
-  unfold St.carryOne
+theorem carryOneMove_recs (s : St) (p : Path) (a : Addr) (m : Method) (f : Bool) :
+    (s.carryOneMove p a m f).1.recs = s.recs := by
+  unfold St.carryOneMove
   have h1 : (if (s.cache a).isSome then
       if f then St.moveToCache { (s.detach a).setCache a none with dirRo := upd s.dirRo a.d false } p a
       else (s, Out.ok)
@@ -24,6 +24,13 @@ theorem carryOne_recs (s : St) (p : Path) (a : Addr) (m : Method) (f : Bool) :
   · rw [recheckFromCache_recs]; split <;> simpa using h1
   · exact h1
   · exact h1
+
+theorem carryOne_recs (s : St) (p : Path) (a : Addr) (m : Method) (f : Bool) :
+    (s.carryOne p a m f).1.recs = s.recs := by
+  unfold St.carryOne
+  split
+  · rw [recheckFromCache_recs]; rfl
+  · exact carryOneMove_recs s p a m f
 
 /-- **C01_recheck_restores**: if path `p` is tracked with current digest `d` and the object for it is
     in the cache, then after *deleting* the workspace copy (`recheck`), or after *any* damage to it
@@ -68,11 +75,15 @@ theorem carryOne_moves (s : St) (p : Path) (a : Addr) (m : Method) (b : Bytes) (
     (l : Option Addr) (hw : s.ws p = some (.file b w st l)) (hnone : s.cache a = none) :
     (s.carryOne p a m false).1.cache a = some ⟨b, true, st⟩ := by
   unfold St.carryOne
+  have hl : s.linksTo p a = false := by simp [St.linksTo, hw]
+  simp only [hl, Bool.false_eq_true, if_false]
+  unfold St.carryOneMove
   simp only [hnone, Option.isSome_none, Bool.false_eq_true, if_false]
+  have hd : s.deref p = s := by simp [St.deref, hw]
   have hmv : s.moveToCache p a =
       ({ (s.setWs p none).setCache a (some ⟨b, true, st⟩) with dirRo := upd s.dirRo a.d true }, Out.ok) := by
     unfold St.moveToCache
-    simp only [hw]
+    simp only [hd, hw]
     rfl
   rw [hmv]
   simp only
